@@ -186,6 +186,9 @@ def check(rep, ctx):
         d = export_desc(P.D.writer_desc(w, cls))
         q, issues = timeflow.write_side(d.get("conv"), 32 if fmt == ">i" else 64, "duration") if d.get("k") == "scalar" else (None, [("T-?", "writer not scalar", "")])
         issues = [i for i in issues if i[0] in ("T-float64", "T-trunc", "T-?", "T-epoch")]
+        if q is None and not issues:
+            rep.limit(f"{w.ref}: duration writer conversion not understood: {timeflow.show(d.get('conv'))[:160]}")
+            continue
         rep.check(R_D, q is not None and not issues, construct=w.ref, stmt=timeflow.show(d.get("conv")),
                   message="; ".join(f"{r}: {m}" for r, m, _ in issues) or "writer conversion not understood",
                   file=ctx.sm.require("kio.serial.writers").rel, line=w.node.lineno)
@@ -228,6 +231,9 @@ def check(rep, ctx):
         d = export_desc(P.D.writer_desc(w, _U((tz, None)) if opt else tz))
         q, issues = timeflow.write_side(d.get("conv"), 64, "timestamp") if d.get("k") == "scalar" else (None, [("T-?", "writer not scalar", "")])
         issues = [i for i in issues if i[0] in ("T-trunc", "T-unit", "T-int", "T-?", "T-epoch")]
+        if q is None and not issues:
+            rep.limit(f"{w.ref}: timestamp writer conversion not understood: {timeflow.show(d.get('conv'))[:160]}")
+            continue
         rep.check(R_T, q is not None and not issues, construct=w.ref, stmt=timeflow.show(d.get("conv")),
                   message="; ".join(f"{r}: {m}" for r, m, _ in issues) or "writer conversion not understood",
                   file=ctx.sm.require("kio.serial.writers").rel, line=w.node.lineno, instance=f"writer|{opt}")
